@@ -881,7 +881,7 @@ func (w *World) randomSlash(n int) {
 		}
 	}
 	power := int64(1 + r.Intn(400))
-	if vals, err := w.C.App.OperatorKeeper.GetOperatorOptedUSDValue(ctx, w.AVSAddr, op.Addr()); err == nil && r.Intn(2) == 0 {
+	if vals, err := w.C.App.OperatorKeeper.GetOperatorOptedUSDValue(ctx, w.AVSAddr, op.Addr()); err == nil && r.Intn(2) == 0 && !vals.ActiveUSDValue.IsNil() {
 		if t := vals.ActiveUSDValue.TruncateInt(); t.IsInt64() && t.Int64() > 0 {
 			power = t.Int64()
 		}
